@@ -111,11 +111,15 @@ def run_spec(spec, props=("C07", "C08")):
                  "SIR_effective_degree_from_graph", "SIR_compact_effective_degree_from_graph", "EBCM_pref_mix_from_graph"]
         # the same graph OBJECT analysed again after it was edited in place (nothing about a graph may be remembered
         # across calls): phase 1 adds one edge to G and repeats every comparison
-        for phase in ((0, 1) if spec.get("edit") else (0,)):
+        for phase in ((0, 1, 2) if spec.get("edit") else (0,)):
             phase_tag = ""
             if phase == 1:
                 G.add_edge(*spec["edit"])
                 phase_tag = " [same graph object after adding edge %r in place]" % (tuple(spec["edit"]),)
+            if phase == 2:
+                e1 = next((a_, b_) for a_, b_ in G.edges() if {a_, b_} != set(spec["edit"]))
+                G.remove_edge(*e1)       # back to the original numbers of nodes and edges, different degrees
+                phase_tag = " [same graph object after adding edge %r and removing edge %r in place]" % (tuple(spec["edit"]), e1)
             for rho in spec["rhos"]:
                 for (tau, gamma) in spec["rates"]:
                     for grid in spec["grids"]:
